@@ -93,9 +93,14 @@ def run(rng, tier, model_ok):
     for s in lits:
         qs.append(s)
         qs.append(s + "%")
+    # a percent sign may be set off by blanks
+    spaced = []
+    for s in rng.sample(lits, min(len(lits), 400 if tier == "quick" else 6000)):
+        spaced.append(s + rng.choice([" ", "  ", "\t", "\u00a0", " \t "]) + "%")
+    qs += spaced
     qrep, _, qcases = qcorr.build_cases(qs)
     for q, r in zip(qs, qrep):
-        v = literal_value(q.rstrip("%"))
+        v = literal_value(q.rstrip("%").rstrip())
         if q.endswith("%"):
             v = v / 100
         res = r.get("results")
